@@ -303,7 +303,7 @@ func vfPolicy(m *vfkit.Msg, max time.Duration) time.Duration {
 }
 
 func TestVfC08StorePolicy(t *testing.T) {
-	st := vfkit.Stats("TestVfC08StorePolicy", "responses (rcodes, TC, TTL vectors over {0,1,..,30,31,3600,2^31,2^32-1}, empty sections) x configured maximum {unset,1,10,86400}: Store then read (stored,expire) back through the memory backend; oracle: lifetime <= policy table of the statement, TC/nil not stored, an error response does not displace a live positive entry; non-trivial = negative, TC, TTL-capped or record-less response")
+	st := vfkit.Stats("TestVfC08StorePolicy", "responses (rcodes, TC, TTL vectors over {0,1,..,30,31,3600,2^31,2^32-1}, empty sections, 0-3 OPT pseudo-records in any section with flag bits in the TTL field, one stripped as forward() does) x configured maximum {unset,1,10,86400}: Store then read (stored,expire) back through the memory backend; oracle: lifetime <= policy table of the statement, TC/nil not stored, an error response does not displace a live positive entry; non-trivial = negative, TC, TTL-capped or record-less response")
 	defer vfkit.Flush()
 	ctls := map[int]*cacheCtl{}
 	for _, mx := range []int{0, 1, 10, 86400} {
@@ -319,8 +319,26 @@ func TestVfC08StorePolicy(t *testing.T) {
 		c := ctls[mx]
 		qn := vfUniqueName()
 		M := vfGenResponse(t, qn)
+		// OPT pseudo-records as an upstream may send them (one in the additional section, but also a second one or one in
+		// another section): their TTL field holds flags, not a TTL, and has no say in the lifetime. As forward() does, one
+		// OPT is stripped before the store.
+		nOpt := rapid.SampledFrom([]int{0, 0, 1, 2, 2, 3}).Draw(t, "nOPT")
+		for i := 0; i < nOpt; i++ {
+			o := vfkit.RR{Owner: vfkit.Name{}, Type: 41, Class: rapid.SampledFrom([]uint16{512, 1232, 4096}).Draw(t, "optClass"), TTL: rapid.SampledFrom([]uint32{0, 0x8000, 31, 0x01008000, 1<<32 - 1}).Draw(t, "optTTLField")}
+			switch rapid.IntRange(0, 3).Draw(t, "optSection") {
+			case 0:
+				M.An = append(M.An, o)
+			case 1:
+				M.Ns = append(M.Ns, o)
+			case 2:
+				M.Ar = append(M.Ar, o)
+			default:
+				M.Ar = append([]vfkit.RR{o}, M.Ar...)
+			}
+		}
 		resp := vfToRepoMsg(t, M)
 		defer dnsmsg.ReleaseMsg(resp)
+		dnsmsg.RemoveEDNS0(resp)
 		q := vfQuestion(qn, 1, 1)
 		defer dnsmsg.ReleaseQuestion(q)
 		client := netip.MustParseAddr("192.0.2.7")
@@ -332,7 +350,7 @@ func TestVfC08StorePolicy(t *testing.T) {
 		v, stored, expire := c.memory.Get(k)
 		pool.ReleaseBuf(k)
 		tc := M.Has(vfkit.BitTC)
-		classes := []string{fmt.Sprintf("rcode=%d", M.Rcode())}
+		classes := []string{fmt.Sprintf("rcode=%d", M.Rcode()), fmt.Sprintf("OPTs=%d", nOpt)}
 		if tc {
 			classes = append(classes, "TC")
 			if v != nil {
@@ -387,7 +405,7 @@ func TestVfC08StorePolicy(t *testing.T) {
 			}
 			classes = append(classes, "negative-over-positive")
 		}
-		nontrivial := tc || M.Rcode() != 0 || (len(M.An)+len(M.Ns)+len(M.Ar) == 0) || vfPolicy(M, c.maximumTtl) == c.maximumTtl
+		nontrivial := tc || M.Rcode() != 0 || (len(M.An)+len(M.Ns)+len(M.Ar)-nOpt == 0) || vfPolicy(M, c.maximumTtl) == c.maximumTtl
 		st.Case(vfkit.Fingerprint(M.String(), mx), nontrivial, classes, func() any {
 			return map[string]any{"max": mx, "response": M.String()}
 		})
